@@ -26,6 +26,9 @@ func walkStack(root ast.Node, f func(n ast.Node, stack []ast.Node)) {
 // limbs returns the number of 64-bit limbs of a uintN value type (1 for
 // scalar integers), or 0.
 func limbsOf(t types.Type) int {
+	if t == nil {
+		return 0
+	}
 	switch u := t.Underlying().(type) {
 	case *types.Array:
 		if b, ok := u.Elem().Underlying().(*types.Basic); ok && b.Kind() == types.Uint64 {
@@ -169,16 +172,18 @@ func (p *Prog) collectMulSites() []mulSite {
 	return out
 }
 
-// topWordBound extracts from one conjunct an upper bound on the top word of
-// `target`: returns (bound such that top <= bound, ok).
-func (p *Prog) topWordBound(cj ast.Expr, target string, limbs int) (*big.Int, bool) {
-	be, ok := ast.Unparen(cj).(*ast.BinaryExpr)
+// topWordFact interprets one known fact as an upper bound on the top word
+// of `target` (or on the scalar itself).
+func (p *Prog) topWordFact(f fact, target string, limbs int) (*big.Int, bool) {
+	x, op, k, ok := p.normCmp(f.cond)
 	if !ok {
 		return nil, false
 	}
-	lhs := ast.Unparen(be.X)
+	if !f.val {
+		op = negOp(op)
+	}
 	if limbs > 1 {
-		ix, ok := lhs.(*ast.IndexExpr)
+		ix, ok := x.(*ast.IndexExpr)
 		if !ok || p.exprKey(ix.X) != target {
 			return nil, false
 		}
@@ -186,22 +191,19 @@ func (p *Prog) topWordBound(cj ast.Expr, target string, limbs int) (*big.Int, bo
 		if !ok || int(i) != limbs-1 {
 			return nil, false
 		}
-	} else if p.exprKey(lhs) != target {
+	} else if p.exprKey(x) != target {
 		return nil, false
 	}
-	c, ok := constBig(p.constOf(be.Y))
-	if !ok {
-		return nil, false
-	}
-	switch be.Op {
-	case token.LEQ:
-		return c, true
-	case token.LSS:
-		return new(big.Int).Sub(c, big.NewInt(1)), true
-	case token.EQL:
-		return c, true
+	switch op {
+	case token.LEQ, token.EQL:
+		return k, true
 	}
 	return nil, false
+}
+
+// topWordBound is kept for callers that inspect a single condition.
+func (p *Prog) topWordBound(cj ast.Expr, target string, limbs int) (*big.Int, bool) {
+	return p.topWordFact(fact{cj, true}, target, limbs)
 }
 
 // assignsTo reports whether stmt (recursively) assigns target.
@@ -228,95 +230,30 @@ func (p *Prog) assignsTo(n ast.Node, target string) bool {
 	return found
 }
 
-// guardFor finds the dominating bound on target's top word for the statement
-// at the end of stack: the nearest enclosing for/if whose condition bounds it
-// with no assignment to target between the condition and the statement.
+// guardFor finds the tightest dominating bound on target's top word at the
+// statement ending the stack, from the facts known there (enclosing loop/if
+// conditions, negated else branches, earlier early exits); an assignment to
+// the target in between discards older facts.
 func (p *Prog) guardFor(stack []ast.Node, target string, limbs int) (*big.Int, ast.Node) {
 	site := stack[len(stack)-1]
-	for i := len(stack) - 2; i >= 0; i-- {
-		var cond ast.Expr
-		var body *ast.BlockStmt
-		switch x := stack[i].(type) {
-		case *ast.ForStmt:
-			cond, body = x.Cond, x.Body
-		case *ast.IfStmt:
-			// the then-branch is guarded by the condition, the else-branch by its negation
-			if i+1 < len(stack) && stack[i+1] == ast.Node(x.Body) {
-				cond, body = x.Cond, x.Body
-			} else if eb, ok := x.Else.(*ast.BlockStmt); ok && i+1 < len(stack) && stack[i+1] == ast.Node(eb) {
-				if be, ok := ast.Unparen(x.Cond).(*ast.BinaryExpr); ok {
-					var nop token.Token
-					switch be.Op {
-					case token.GTR:
-						nop = token.LEQ
-					case token.GEQ:
-						nop = token.LSS
-					}
-					if nop != token.ILLEGAL {
-						cond, body = &ast.BinaryExpr{X: be.X, Op: nop, Y: be.Y}, eb
-					}
-				}
+	facts := p.factsAt(stack, func(s ast.Stmt) bool {
+		if s == site || containsNode(s, site) {
+			return false
+		}
+		return p.assignsTo(s, target) && !p.assignmentsExit(s, target)
+	})
+	var best *big.Int
+	for _, f := range facts {
+		if b, ok := p.topWordFact(f, target, limbs); ok {
+			if best == nil || b.Cmp(best) < 0 {
+				best = b
 			}
 		}
-		if cond == nil || body == nil {
-			continue
-		}
-		var best *big.Int
-		for _, cj := range conjuncts(cond) {
-			if b, ok := p.topWordBound(cj, target, limbs); ok {
-				if best == nil || b.Cmp(best) < 0 {
-					best = b
-				}
-			}
-		}
-		if best == nil {
-			continue
-		}
-		// no assignment to target on the way from the condition to the site
-		clean := true
-		var check func(list []ast.Stmt) bool
-		check = func(list []ast.Stmt) bool {
-			for _, s := range list {
-				if s == site || containsNode(s, site) {
-					if s == site {
-						return true
-					}
-					// descend
-					switch y := s.(type) {
-					case *ast.BlockStmt:
-						return check(y.List)
-					case *ast.IfStmt:
-						if containsNode(y.Body, site) {
-							return check(y.Body.List)
-						}
-						if y.Else != nil {
-							if eb, ok := y.Else.(*ast.BlockStmt); ok {
-								return check(eb.List)
-							}
-						}
-						return true
-					case *ast.ForStmt:
-						// a nested loop re-enters: any assignment in it may precede the site
-						if p.assignsToExcept(y, target, site) {
-							clean = false
-						}
-						return true
-					}
-					return true
-				}
-				if p.assignsTo(s, target) && !p.assignmentsExit(s, target) {
-					clean = false
-				}
-			}
-			return true
-		}
-		check(body.List)
-		if clean {
-			return best, stack[i]
-		}
+	}
+	if best == nil {
 		return nil, nil
 	}
-	return nil, nil
+	return best, site
 }
 
 // assignmentsExit reports whether every assignment to target inside n sits in
@@ -622,18 +559,18 @@ func ruleGuardReduce(c *Ctx) {
 				if f, ok := n.(*ast.ForStmt); ok && f.Cond != nil {
 					// final loops: for sig[1] > LIMIT { ... div10 }
 					for _, cj := range conjuncts(f.Cond) {
-						be, ok := cj.(*ast.BinaryExpr)
-						if !ok || be.Op != token.GTR {
+						nx, nop, kb, ok := p.normCmp(cj)
+						if !ok || nop != token.GTR || !kb.IsUint64() {
 							continue
 						}
-						ix, ok := ast.Unparen(be.X).(*ast.IndexExpr)
-						if !ok || p.exprName(ix.X) != "sig" {
+						ix, ok := nx.(*ast.IndexExpr)
+						if !ok || limbsOf(p.typeOf(ix.X)) != 2 {
 							continue
 						}
-						k, ok := p.constUint64(be.Y)
-						if !ok {
+						if i, ok := p.constInt64(ix.Index); !ok || i != 1 {
 							continue
 						}
+						k := kb.Uint64()
 						nLim++
 						c.check(k == lim, fmt.Sprintf("reduce.limit:%s#%d", fn, nLim), f, "digits are dropped exactly while the coefficient exceeds 5·2^111-1",
 							fmt.Sprintf("%s: the final reduction loop runs while sig[1] > %#x; the coefficient limit is %#x", fn, k, lim), fp...)
@@ -641,15 +578,11 @@ func ruleGuardReduce(c *Ctx) {
 				}
 				return
 			}
-			be, ok := ast.Unparen(ifs.Cond).(*ast.BinaryExpr)
-			if !ok || be.Op != token.GTR {
+			nx, nop, cst, ok := p.normCmp(ifs.Cond)
+			if !ok || nop != token.GTR {
 				return
 			}
-			ix, ok := ast.Unparen(be.X).(*ast.IndexExpr)
-			if !ok {
-				return
-			}
-			cst, ok := constBig(p.constOf(be.Y))
+			ix, ok := nx.(*ast.IndexExpr)
 			if !ok {
 				return
 			}
